@@ -284,6 +284,10 @@ def run_case(s: M.Schema, gen: str, entry: str, pre_files: Dict[str, str], missi
         bad = {b for b in bad if not b.endswith("/")}
         if bad and returned is None:
             return f"accepted schema, plug-in failed ({raised!r}) but files changed: {sorted(bad)}", info
+        if returned is not None and any(r.get("type") == "file" for r in returned):
+            # every check passed and the plug-in handed over its files: they have to be written
+            return (f"accepted schema: the plug-in returned {sum(1 for r in returned if r.get('type') == 'file')} file(s) but "
+                    f"generate failed while writing them ({raised!r}, error reported: {result_err})"), info
         return None, info
     if returned is None:
         return "accepted schema: generate reported success but the plug-in's generate() was never invoked", info
